@@ -29,6 +29,7 @@ type Engine struct {
 	Errors []string
 	Missing map[string][]string
 	requireTermination bool
+	DeepVacuity bool // thorough tier: a reachability guard after every call of a function under contract
 	varScopes map[*ssa.Alloc]*types.Scope
 	instances map[string]*ssa.Function // instances of generic functions by key
 	callGraphSCC map[string]int
